@@ -114,6 +114,8 @@ def apply() -> None:
         with NoTracing():
             if isinstance(obj, (bl.SymbolicInt, bl.SymbolicFloat, bl.SymbolicBool)):
                 return '<sym>'
+            if type(obj) in (list, tuple, dict, set):
+                return f'<{type(obj).__name__} of {len(obj)}>'  # may hold symbolic values: never realise for a message
         return _stock_format(obj, format_spec)
 
     core._PATCH_REGISTRATIONS[format] = _format
